@@ -19,7 +19,8 @@ TECHNIQUE = 'property-based testing: mirror oracle built from an independent wal
 LEVEL_TEXT = 'exploration: generated string trees (explicit ids incl. 0, clones, emptied trees) and object trees (truthy and falsy objects, in-place and new-dict mappers), optional JSON round trip'
 RULE = (
     "case = (tree spec, flavour in {str without mapper, Person objects keyed by a calc_data_id callback with a pair of "
-    "inverse mappers}, json dump/load in between?, emptied-again?). Oracle 1 (mirror): to_dict_list() is compared "
+    "inverse mappers}, json dump/load in between?, emptied-again?, rearranged after creation (sort, move_to, "
+    "prepend_sibling: sibling order != creation order)?). Oracle 1 (mirror): to_dict_list() is compared "
     "with a dict structure built directly from an independent walk (one dict per node, child order, data = str(data) "
     "or mapper output, data_id present iff it differs from hash(data), children key exactly for inner nodes). Oracle "
     "2 (round trip): Tree.from_dict() reproduces shape, order, data, explicit data_ids and the clone partition. "
@@ -27,7 +28,6 @@ RULE = (
 )
 ASSUMPTIONS = [
     "without mapper only string data is used (the dict form stores str(data))",
-    "data objects and ids are truthy",
     "hash(str) is stable inside one process (PYTHONHASHSEED fixed by ./check)",
 ]
 
@@ -89,6 +89,30 @@ def run(case, rec):
         else:
             for n in list(tree.children):
                 n.remove()
+    if case.get("rearrange") and nodes:
+        # sibling order that differs from creation order (a refused step is simply not taken)
+        done = 0
+        for kind, i, j in case["rearrange"]:
+            alive = [n for n in nodes if n.tree is tree]
+            if not alive:
+                break
+            a = alive[i % len(alive)]
+            try:
+                if kind == "sort":
+                    if i % 3 == 0:
+                        tree.sort(reverse=bool(j % 2))
+                    else:
+                        a.sort_children(reverse=bool(j % 2))
+                elif kind == "move":
+                    b = alive[j % len(alive)]
+                    a.move_to(tree if j % 4 == 0 else b, before=True if i % 2 else None)
+                else:
+                    a.prepend_sibling(fl.data(f"new{done}"))
+                done += 1
+            except Exception:  # noqa: BLE001  (refusals are C13's subject)
+                pass
+        if done:
+            rec.cls("rearranged-after-creation")
     w = walk(tree)
     mapper = None
     style = case.get("style", "newdict" if case.get("newdict") else "inplace")
@@ -222,6 +246,9 @@ def hyp_cases(draw, tier):
             gen.fix_sibling_ids(spec)
     if draw(st.sampled_from([0] * 9 + [1])):
         case["emptied"] = draw(st.sampled_from(["clear", "remove"]))
+    elif draw(st.sampled_from([0, 0, 1])):
+        case["rearrange"] = draw(st.lists(st.tuples(st.sampled_from(["sort", "move", "move", "prepend"]), st.integers(0, 15), st.integers(0, 15)).map(list),
+                                          min_size=1, max_size=4))
     return case
 
 
